@@ -46,4 +46,16 @@ CLAIMED = {
                 "Reasoned exemptions are listed in kv/rules/c02.py (EXEMPT_*).",
         "technique": "interprocedural read/write effect summaries + CFG must-pass-through (writer -> invalidator), dominance (reader <- stale check)",
     },
+    "C19": {
+        "text": "Validate-then-commit path rule (R-A) on the CFG of every function executable after construction on 31 anchor classes (fits, containers, "
+                "parametric models, Nexus and node classes, NexusFitter, both minimizer adapters, CovMat, error and constraint classes): no rejection point "
+                "- explicit escaping raise, same-object call that may reject (depth 2), or call into a validator table confirmed by reading - is reachable "
+                "after a node with a state write (interprocedural effects; refreshes inside getters and listed cache/scratch fields do not count) unless a "
+                "handler rolls the write back (rollback idioms recognised structurally). Plus a guard-presence table of 44 (entry point, exception, tested "
+                "quantity) instances for every invalid-input class named in the statement, matched on the guarding condition with local temporaries expanded.",
+        "note": "Decides: rejected calls cannot have committed state earlier on the same path; the named guards exist. Does not decide that a guard's "
+                "predicate is complete for the long tail of malformed values. Library calls (list.index, numpy) are rejection points only where the guard "
+                "table says so. Two genuine defects (Nexus.add, Nexus.add_function) are recorded as known findings; reasoned exemptions are in kv/rules/c19.py.",
+        "technique": "CFG reachability write ~> rejection with interprocedural effect summaries and rollback-idiom recognition; guard-presence table over guard conditions",
+    },
 }
